@@ -193,9 +193,9 @@ __strpd_card(struct strpd_s *d, const char *sp, struct dt_spec_s s, char **ep)
 		break;
 	case DT_SPFL_N_DSTD:
 		d->y = strtoi_lim(sp, &sp, DT_MIN_YEAR, DT_MAX_YEAR);
-		sp++;
+		sp += *sp != '\0';
 		d->m = strtoi_lim(sp, &sp, 0, GREG_MONTHS_P_YEAR);
-		sp++;
+		sp += *sp != '\0';
 		d->d = strtoi_lim(sp, &sp, 0, 31);
 		res = 0 - (d->y < 0 || d->m < 0 || d->d < 0);
 		break;
